@@ -19,7 +19,7 @@ type LockCfg struct {
 	Exempt           map[string]string // short func key -> reason
 	HeldBy           map[string]int
 	FreshCtors       []string // short func keys whose result is a fresh object
-	MinFuncs         int // floor: functions with direct accesses confirmed by hand
+	MinFuncs         int      // floor: functions with direct accesses confirmed by hand
 }
 
 // RunLock applies the must-lockset discipline and records one obligation per function that
